@@ -1,16 +1,12 @@
 ------------------------------ MODULE Emit_C02 ------------------------------
 (* Obligations for C02: for every lattice cell the textbook LO row (exact). *)
-EXTENDS Theorems, Json, IOUtils, SequencesExt
+EXTENDS Lattice, Json, IOUtils, SequencesExt
 
 CONSTANTS S2W, RR, OMD, POL, NFZM, KINDS, PROCS, FLAVS, CKMS
 S2W_q1 == {R(3, 8)}   S2W_q == {R(1, 4), R(3, 8)}      S2W_full == {R(1, 2), R(1, 4), R(1, 8), R(3, 8)}
 RR_q  == {Zero, R(1, 5)}         RR_full  == {Zero, R(1, 2), R(1, 5), R(2, 3)}
 OMD_q == {R(1, 2)}               OMD_full == {One, R(1, 2), R(5, 4)}
 POL_q == {RI(-1), Zero, R(1, 3)} POL_full == {RI(-1), R(-1, 2), Zero, R(1, 3), One}
-CkmOf(name) ==
-  CASE name = "generic" -> << <<R(4, 5), R(1, 6), R(1, 100)>>, <<R(1, 7), R(3, 4), R(1, 20)>>, <<R(1, 50), R(1, 25), R(9, 10)>> >>
-    [] name = "unitary" -> << <<R(1, 2), R(1, 3), R(1, 6)>>, <<R(1, 3), R(1, 2), R(1, 6)>>, <<R(1, 6), R(1, 6), R(2, 3)>> >>
-PidSeq == <<-6, -5, -4, -3, -2, -1, 21, 1, 2, 3, 4, 5, 6>>
 ZM(n) == [fns |-> "ZM-VFNS", nfff |-> 4, nfzm |-> n]
 
 Points ==
